@@ -5,64 +5,64 @@ import json, sys, os
 
 CLAIMED = {
  "C01": dict(engine="E1", technique="explicit-state BFS over API histories on the real code vs reference map",
-   text="Bounded exhaustive refinement check: every call history up to the stated depth over a collision-forcing alphabet, under 8 storage configurations, is executed on the real package (over the in-memory file system) and compared step by step with a reference map; complete read sweep after every history.",
+   text="Bounded exhaustive refinement check: every call history up to the stated depth over a collision-forcing alphabet, under 8 storage configurations, is executed on the real package (over the in-memory file system) and compared step by step with a reference map; complete read sweep after every history. Also: histories with live cache/async settings switches, and histories on two collections created from one Schema value.",
    note="Bounded by alphabet, depth and <=3 live objects; file system, clock and uuid generator are models owned by the harness (DESIGN 2.3).", ref="6/C01"),
  "C02": dict(engine="E1", technique="explicit-state BFS; exhaustive query sweep per state vs linear-scan reference",
-   text="In every state reached by BFS over a contents alphabet (ties, in-place updates, deletions, reloads) every field path x operator x probe and all And/Or trees over an atom menu are evaluated on the real index code and compared with a linear scan of the reference model; queries must leave the handle state unchanged.",
+   text="In every state reached by BFS over a contents alphabet (ties, in-place updates, deletions, reloads) every field path x operator x probe and all And/Or trees over an atom menu are evaluated on the real index code and compared with a linear scan of the reference model; queries must leave the handle state unchanged. Scale ladders: every insertion sequence over three values up to length 6 (8) with the full operator x probe sweep after every step; unions/refinements built from one search for every result size up to 40; collections of 150-1100 objects.",
    note="Probe values come from per-type tables with extremes, not the whole 64-bit domain; NaN excluded.", ref="6/C02"),
  "C03": dict(engine="E1", technique="explicit-state BFS over key-collision histories vs reference",
-   text="Every history up to the depth over an alphabet specialised to unique-key collisions (case variants, values differing beyond 2^53, released keys, batches, reopen/abandon) decides accept/reject exactly like the reference, in both directions, and the pairwise-distinct invariant holds in every reached state.",
+   text="Every history up to the depth over an alphabet specialised to unique-key collisions (case variants, values differing beyond 2^53, released keys, batches, reopen/abandon) decides accept/reject exactly like the reference, in both directions, and the pairwise-distinct invariant holds in every reached state. Three more configurations declare a third unique field (unsigned, float, time). Scale ladder: every insertion order of 5 (7) unique keys (incl. 300-byte strings differing in their last bytes) with every key offered again after every step.",
    note="Two unique fields (string+upper, int64); 5 key classes.", ref="6/C03"),
  "C04": dict(engine="E1", technique="explicit-state BFS; differential observation before/after reopen in every state",
-   text="In every reached state the complete observation vector (reads, all searches with order, AssignIndex, And/Or pairs) is compared before and after Close+Open, and in synchronous configurations after abandoning the handle; reopen is also an alphabet letter so later calls keep refining the reference.",
+   text="In every reached state the complete observation vector (reads, all searches with order, AssignIndex, And/Or pairs) is compared before and after Close+Open, and in synchronous configurations after abandoning the handle; reopen is also an alphabet letter so later calls keep refining the reference. Also: compatible re-creation with another compression flag as a letter; one object with a field of up to 1 MiB (3 MiB, one of 33 MiB compressed) through every read path and Repair.",
    note="Value tables include 2^53+1, MaxInt64, MaxUint64 and ns timestamps.", ref="6/C04"),
  "C12": dict(engine="E1", technique="exhaustive history enumeration; differential between configurations",
    text="Every history up to the depth is executed under the reference configuration and under every other configuration (quick: pairwise-covering 7, thorough: full product) and the normalised observation vectors, including error outcomes of ill-formed queries and Exist, must be identical.",
    note="Result order is ignored (an index may change order).", ref="6/C12"),
  "C13": dict(engine="E1", technique="explicit-state BFS; exhaustive ordered-query menu per state",
-   text="In every reached state every single comparison and And-chain ending on an indexed field is checked for order, Reverse, all interesting Limits, One and terminal-call independence, plus AssignIndex for every indexed field.",
+   text="In every reached state every single comparison and And-chain ending on an indexed field is checked for order, Reverse, all interesting Limits, One and terminal-call independence, plus AssignIndex for every indexed field. Scale ladders: every insertion sequence over three values up to length 5 (7) and collections of 150-1100 objects (limits around internal buffer sizes).",
    note="Ties are produced by the value classes; tie order itself is not constrained.", ref="6/C13"),
  "C20": dict(engine="E1", technique="explicit-state BFS x query menu x all write sequences <= 2",
-   text="For every reached state, every query of the menu is evaluated and kept while every write sequence of length <= 2 is applied; Collect/Assign/One/Len on the kept value may only yield objects matched at evaluation time, once each.",
+   text="For every reached state, every query of the menu is evaluated and kept while every write sequence of length <= 2 is applied; Collect/Assign/One/Len on the kept value may only yield objects matched at evaluation time, once each. Scale ladder: kept search values with 1..24 (70) results x six rewriting scripts.",
    note="Write sequences of length <= 2; depth of the base state as stated in evidence.", ref="6/C20"),
  "C05": dict(engine="E3", technique="exhaustive crash-point and torn-write enumeration over the recorded file-operation log of every history",
    text="Every history up to the depth is executed on the real write path over the logging file system; for every prefix of the mutation log of its last call (and 3 cut positions inside every write) the tree is materialised and a recovery protocol (Open, first load, agreement of index and independently decoded files, Repair, Control, old-or-new per object) is evaluated.",
    note="Process-crash model (completed system calls persist in order) plus torn single writes; no reordering. One root cause (stale index entry after an interrupted update) is a known finding.", ref="6/C05", level="model_checking"),
  "C06": dict(engine="E1+E3", technique="explicit-state BFS x rejection menu x follow-up letters; single-fault enumeration over file operations",
-   text="On every reached state every rejecting call of a 14-entry menu must fail with its class and leave the ordered observation vector and the files identical, and every alphabet call afterwards must still refine the reference; storage faults: every file operation of the last call of every short history fails once.",
+   text="On every reached state every rejecting call of an 18-entry menu must fail with its class and leave the ordered observation vector and the files identical, and every alphabet call afterwards must still refine the reference; storage faults: every file operation of the last call of every short history fails once. (the menu now has 18 entries, incl. collisions visible only after case canonicalisation and updates colliding inside one batch.)",
    note="One fault per execution; Close errors are not injected.", ref="6/C06"),
  "C07": dict(engine="E1", technique="explicit-state BFS x exhaustive batch enumeration",
-   text="On every base state every batch up to the size bound over a 9-member menu (plus same-pointer members) at every position goes through InsertOrUpdateMany and through InsertOrUpdateBulk with every chunk size; (n, err) must equal the reference fold, failed batches leave no trace.",
+   text="On every base state every batch up to the size bound over a 10-member menu (plus same-pointer members) at every position goes through InsertOrUpdateMany and through InsertOrUpdateBulk with every chunk size; (n, err) must equal the reference fold, failed batches leave no trace. Scale ladder: batches of 5..12 members with one offender of four kinds at every position through every chunk size.",
    note="Batch size <= 2 (quick) / 3 (thorough); chunk sizes 0..4.", ref="6/C07"),
  "C11": dict(engine="E4", technique="exhaustive enumeration of fault assignments on every base database",
-   text="Every assignment of {intact, file removed, index entries removed, both} to each object x extra files x schema removed, on every base database and configuration; detection iff id sets differ, Repair restores agreement without touching object files; partial (internally inconsistent) removals must be reported.",
-   note="Base databases with <= 3 objects.", ref="6/C11"),
+   text="Every assignment of {intact, file removed, index entries removed, both} to each object x extra files x schema removed, on every base database and configuration; detection iff id sets differ, Repair restores agreement without touching object files; partial (internally inconsistent) removals must be reported. Also: Repair on live handles holding pending asynchronous writes; the collection directory removed under a live handle; intact collections of 63..4095 objects.",
+   note="Fault assignments on base databases with <= 3 objects; the big-collection part goes to 4095.", ref="6/C11"),
  "C14": dict(engine="E4", technique="exhaustive enumeration of object shapes x mutation points x storage modes",
-   text="Every shape (singles and pairs of 11 container fields nil/empty/non-empty; thorough: all 3^6 fillings of pointer-bearing fields) is stored under 5 storage modes; each of 18 mutators is applied to the caller's object and to returned objects; every read path must keep returning the accepted value; reflection walk for shared memory.",
+   text="Every shape (singles and pairs of 11 container fields nil/empty/non-empty; thorough: all 3^6 fillings of pointer-bearing fields) is stored under 5 storage modes; each of 18 mutators is applied to the caller's object and to returned objects; every read path must keep returning the accepted value; reflection walk for shared memory. (20 container fields down to three levels of nesting, 801 shapes, 28 mutators.)",
    note="Strings and unexported fields are skipped as documented.", ref="6/C14"),
  "C15": dict(engine="E1", technique="exhaustive scenario enumeration with a hook recorder",
-   text="Every insertion entry point x offender position x pre-state x name class x configuration with a type whose validity depends on hook order; the recorder hashes the whole handle and counts file mutations inside every hook call.",
+   text="Every insertion entry point x offender position x pre-state x name class x configuration with a type whose validity depends on hook order; the recorder hashes the whole handle and counts file mutations inside every hook call. Calls on the same and on a re-opened handle; offender invalid or made unserialisable by its own Transform; seven constrained fields (tag orders, named string type, deep and pointer-nested paths, a constraint declared by a custom schema only).",
    note="Batch size <= 3.", ref="6/C15"),
  "C16": dict(engine="E4", technique="exhaustive enumeration of all code points and short strings; per-string database scenario",
-   text="All 1 112 064 Unicode scalar values and all strings up to the length bound over a case-folding-hostile alphabet go through the real constraint code (mapping and idempotence); each string is stored at every constrained path and searched with case variants and neighbours; uniqueness on canonical values.",
+   text="All 1 112 064 Unicode scalar values and all strings up to the length bound over a case-folding-hostile alphabet go through the real constraint code (mapping and idempotence); each string is stored at every constrained path and searched with case variants and neighbours; uniqueness on canonical values. Constraints down to six path components; every condition also as And/Or refinement; a three-option tag.",
    note="Valid UTF-8 only; strings of length <= 2 (quick) / 3 (thorough).", ref="6/C16"),
  "C19": dict(engine="E4", technique="exhaustive enumeration of single file mutations, stray entries and argument triples",
-   text="For every base database every truncation, every single-byte substitution from a 12-byte set, every single JSON-tree mutation of schema.json and of every object file, stray files and directories, and 23 x 11 x 26 search argument triples are enumerated; each case runs the whole public call set on a fresh handle under recover: no panic, no hang, no objects from a failed search.",
+   text="For every base database every truncation, every single-byte substitution from a 12-byte set, every single JSON-tree mutation of schema.json and of every object file, stray files and directories, and 23 x 11 x 26 search argument triples are enumerated; each case runs the whole public call set on a fresh handle under recover: no panic, no hang, no objects from a failed search. (mutations now include exchanged array elements; the call set updates and deletes every object the directory names; 32 field paths x 19 operator spellings x 26 value kinds x limits x terminal operations; paths that designate no field must fail.)",
    note="One mutation per file (thorough: pairs inside the index subtree); hang = 30 s wall watchdog.", ref="6/C19"),
  "C09": dict(engine="E2", technique="stateless deviation-bounded schedule exploration of the real code; deadlock oracle",
-   text="For every exported entry point against a write-lock taker (and further partners), warm and cold handles, sync and async configurations, every schedule with at most the stated number of deviations is executed on the real code under a cooperative scheduler with an exact writer-preferring RWMutex model; no reachable state may have unfinished threads and none enabled.",
+   text="For every exported entry point against a write-lock taker (and further partners), warm and cold handles, sync and async configurations, every schedule with at most the stated number of deviations is executed on the real code under a cooperative scheduler with an exact writer-preferring RWMutex model; no reachable state may have unfinished threads and none enabled. Also on collections holding a missing or garbled object file, and on collections of 33-130 objects walked against a writer.",
    note="2-3 threads, 1-2 calls each, deviation bound 1-2 (quick) / 3 (thorough); scheduling points at lock acquisitions, context checks, sleeps.", ref="6/C09"),
  "C08": dict(engine="E2", technique="stateless deviation-bounded schedule exploration under the race detector + brute-force linearizability check",
    text="Every (reader or refinement, writer) pair plus writer/writer, reader/reader and two-call programs, warm and cold, in sync, cached and async configurations: every schedule within the deviation bound is executed on the real code, once built with -race (hand-off invisible to the detector, lock grants mirrored on real mutexes; reports attributed to package sod are violations) and once without for a deeper bound, where the recorded history plus final state must be explained by a sequential order on the reference that respects real-time order.",
    note="2-3 threads x 1-2 calls; race phase bound 1 (quick) / 2; linearizability phase bound 2 (1 with the flusher on quick) / 3. Control/Repair while writes are pending are outside the statement and not scheduled in async configurations.", ref="6/C08"),
  "C10": dict(engine="E1+E2", technique="explicit-state BFS with clock-tick events + schedule/tick-placement exploration under a virtual clock",
-   text="Histories with explicit clock ticks under three threshold/timeout settings: visibility after every call, barriers (FlushAll, FlushAllAndCommit, Close) checked against files decoded without sod code and against a second handle, deadlines checked by advancing only the virtual clock from every reached state; plus client programs against the background writer over all schedules and tick placements within the deviation bound (deleted-never-on-disk, completeness at Close, no panic).",
+   text="Histories with explicit clock ticks under three threshold/timeout settings: visibility after every call, barriers (FlushAll, FlushAllAndCommit, Close) checked against files decoded without sod code and against a second handle, deadlines checked by advancing only the virtual clock from every reached state; plus client programs against the background writer over all schedules and tick placements within the deviation bound (deleted-never-on-disk, completeness at Close, no panic). Scale ladders: every history of length 6 (8) over {insert, update, delete, clock step} x thresholds x timeouts with per-version deadlines; two collections created from one Schema value; thousands of pending writes at a barrier.",
    note="Virtual time: nothing is claimed about wall-clock accuracy of time.Sleep; single client thread in the timing programs.", ref="6/C10"),
  "C17": dict(engine="E4+E1+E2", technique="exhaustive enumeration of struct-shape pairs x operations; BFS with settings letters; schedule exploration of settings changes against the flusher",
-   text="All ordered pairs over 12 struct variants sharing package and type name x {0,2} objects x 21 operations (first and later) with the pair class computed by an independent reflection walk: structure change => ErrStructureChanged and byte-identical files; constraint / extension change => Create refused; compatible => data preserved. Create with every cache/async combination as alphabet letters in BFS histories with pending writes, and as client calls against the running background writer over all schedules within 2 deviations.",
+   text="All ordered pairs over 12 struct variants sharing package and type name x {0,2} objects x 21 operations (first and later) with the pair class computed by an independent reflection walk: structure change => ErrStructureChanged and byte-identical files; constraint / extension change => Create refused; compatible => data preserved. Create with every cache/async combination as alphabet letters in BFS histories with pending writes, and as client calls against the running background writer over all schedules within 2 deviations. (18 shapes incl. repeated nested types, lower/upper tag changes, a field five components deep.) Refused re-creations on a handle with pending writes touch nothing; settings switch with thousands of pending writes.",
    note="12 shape variants; settings histories to depth 3 (quick) / 4.", ref="6/C17"),
  "C18": dict(engine="E1+corpus", technique="explicit-state BFS with an independent layout walk in every state; replay of a golden corpus written by the pinned release",
-   text="In every state reached by BFS under 11 configurations an independent walk (no sod code) checks directory name, file set and names, gzip, plain-JSON content under the Go field names and the persistent schema.json format including exact 64-bit index tuples; every directory of the committed corpus written by the pinned commit (900 distinct final states x 12 configurations) is opened by the current code, swept, written to, closed, reopened and walked again.",
+   text="In every state reached by BFS under 11 configurations an independent walk (no sod code) checks directory name, file set and names, gzip, plain-JSON content under the Go field names and the persistent schema.json format including exact 64-bit index tuples; every directory of the committed corpus written by the pinned commit (900 distinct final states x 12 configurations) is opened by the current code, swept, written to, closed, reopened and walked again. Directory names of 11 awkward type names and the field descriptors of awkward shapes are compared with tables recorded from the pinned release; collections without extension and with extensions ending in .gz.",
    note="One other version (the pinned commit) and one independent decoder (encoding/json + gzip).", ref="6/C18"),
 }
 
